@@ -202,7 +202,7 @@ func genC07(seed int64, tier string, emit func(run.Case)) {
 		emit(run.MkCase(fmt.Sprintf("c%07d", id), src, in))
 	}
 	body := func(q *gen.R) string { return gen.Program(q, gen.ProfileLang) }
-	fixedFS := map[string]string{"x.d2": "k: v\nq: {a -> b}\n", "y.d2": "s; t\n", "dir/z.d2": "...@../x\n"}
+	fixedFS := map[string]string{"x.d2": "k: v\nq: {a -> b}\n", "y.d2": "s; t\n", "dir/z.d2": "...@../x\n", "lay.d2": "layers: {l: {a}}\n"}
 
 	// 1. confirmed/targeted witnesses and their neighbourhood (spread placeholders × null ×
 	//    globs, non-ASCII case-length-changing names under every glob form).
@@ -211,7 +211,7 @@ func genC07(seed int64, tier string, emit func(run.Case)) {
 	}
 	// 2. keyword × context × value-shape matrix: every keyword spelled plain, in other
 	//    letter case, and quoted (a quoted keyword is an ordinary name). thorough: the
-	//    complete matrix; quick: a seed-determined 1/12 sample of it.
+	//    complete matrix; quick: a seed-determined 1/16 sample of it.
 	var kws []string
 	for _, k := range gen.Keywords {
 		kws = append(kws, k, strings.ToUpper(k[:1])+k[1:], "\""+strings.ToUpper(k[:1])+k[1:]+"\"", "'"+k+"'")
@@ -222,7 +222,7 @@ func genC07(seed int64, tier string, emit func(run.Case)) {
 	for _, kw := range kws {
 		for _, ctx := range c07Contexts {
 			for _, sh := range c07Shapes {
-				if tier != "thorough" && mr.Intn(12) != 0 {
+				if tier != "thorough" && mr.Intn(16) != 0 {
 					continue
 				}
 				t := strings.ReplaceAll(ctx.tpl, "%k", kw)
@@ -247,7 +247,7 @@ func genC07(seed int64, tier string, emit func(run.Case)) {
 		}
 	}
 	// 4. random programs
-	n := tierN(tier, 9000, 400000)
+	n := tierN(tier, 7000, 400000)
 	syn := gen.ProfileSyntax
 	for i := 0; i < n; i++ {
 		q := r.Sub(i)
@@ -352,6 +352,20 @@ func c07Targeted() []string {
 		"vars: {v: 1}\n**.a: ${v}",
 		"x: {vars: {v: 1}; **.a: ${v}}",
 		"vars: {v: {a: 1}}\n**: ${v}",
+		"vars: {m: {p: q}}\nx\n***.a: {...${m}}",
+		"classes: {c: {class: c}}\nx.class: c",
+		"x; y\nlayers: {l: {z}}\n***.t: @x\nq: a.b.c\nr.s\nu.v.w\n",
+		"classes: {c: {class: d}; d: {class: c}}\na -> b: {class: d}",
+		"x\n*: @lay",
+		"s{t{s{i{}}}}\nSTEPs{'FONT-COLOR'{L->_.\"FONT-COLOR\".S{}}}",
+		"vars: {d2-legend: {...${d}}}\nx: |md ${v} |\n",
+		"vars: {...${d}; v: 1}\nx: |md ${v} |\n",
+		"k: {_ <- _.x}",
+		"y\n*: {&L}",
+		"Label.e",
+		"vars: {d2-config: {...${x}}}",
+		"** -> i\na: {...${z}}",
+		"a: {...${z}}\na: @x",
 	}
 	// quoted keyword-like child keys in random-ish case at several depths
 	for _, k := range gen.Keywords {
@@ -399,35 +413,121 @@ func c07Len(s string, u16 bool) int {
 }
 
 // c07HangTrigger names the known non-termination trigger class a program falls into,
-// or "". It is a deliberately simple predicate on the input text (an over-approximation:
-// matching cases are still executed and judged normally, only inside a CPU-limited
-// child process).
+// or "". It is a deliberately simple predicate on the input text: a `**`/`***` token
+// whose statement (rest of the line, or the map that opens on that line) contains the
+// substitution. The first few matching cases per class are still executed and judged
+// normally, only inside a CPU-limited child process; the rest are counted as not executed.
 //
 //   - double-glob-substitution-with-vars: a `**` key (not `***`) whose value holds a
 //     substitution, in a program that declares `vars`. `**` descends into the `vars`
 //     map, so `vars: {v: 1}\n**.a: ${v}` assigns `${v}` to vars.v.a; resolving it
 //     substitutes the (now composite) variable v into its own descendant, without end.
+//   - multi-glob-with-spread-substitution: a `**`/`***` key and a spread substitution
+//     `...${m}`: `vars: {m: {p: q}}\nx\n***.a: {...${m}}` — resolving the spread
+//     re-applies the recursive glob, which creates a deeper `a` holding a new spread
+//     placeholder, whose resolution re-applies the glob, and so on.
+//   - multi-glob-with-import-value: a `**`/`***` key whose value is an import
+//     (`layers: {l: {z}}\n***.t: @x\nq: a.b.c`): the lazily re-applied glob also matches
+//     the fields its own import created (q.t.k.t.k ...), multiplying with every later
+//     declaration and board; a 60-byte program burns minutes of CPU.
 func c07HangTrigger(text string, files map[string]string) string {
-	all := text
-	for _, f := range files {
-		all += "\n" + f
+	// class-referencing-class: a `class:` field inside a `classes` block
+	// (`classes: {c: {class: c}}\nx.class: c`): the graph compiler expands the class of a
+	// class recursively, without end when the reference is cyclic.
+	for _, src := range append([]string{text}, c07SortedValues(files)...) {
+		low := strings.ToLower(src)
+		for off := 0; ; {
+			i := strings.Index(low[off:], "classes")
+			if i < 0 {
+				break
+			}
+			i += off
+			off = i + 7
+			j := strings.IndexByte(low[off:], '{')
+			if j < 0 || strings.TrimSpace(strings.Trim(low[off:off+j], ":")) != "" {
+				continue
+			}
+			depth, k := 0, off+j
+			for ; k < len(low); k++ {
+				if low[k] == '{' {
+					depth++
+				} else if low[k] == '}' {
+					depth--
+					if depth == 0 {
+						break
+					}
+				}
+			}
+			ext := low[off+j : k]
+			if strings.Contains(ext, "class:") || strings.Contains(ext, "class :") {
+				return "class-referencing-class"
+			}
+		}
 	}
-	if !strings.Contains(all, "${") || !strings.Contains(strings.ToLower(all), "vars") {
-		return ""
+	hasVars := strings.Contains(strings.ToLower(text), "vars")
+	srcs := []string{text}
+	for _, f := range c07SortedValues(files) {
+		srcs = append(srcs, f)
+		hasVars = hasVars || strings.Contains(strings.ToLower(f), "vars")
 	}
-	for i := 0; i+1 < len(all); i++ {
-		if all[i] == '*' && all[i+1] == '*' {
+	for _, src := range srcs {
+		if !strings.Contains(src, "${") && !strings.Contains(src, "@") {
+			continue
+		}
+		for i := 0; i < len(src); i++ {
+			if src[i] != '*' {
+				continue
+			}
 			j := i
-			for j < len(all) && all[j] == '*' {
+			for j < len(src) && src[j] == '*' {
 				j++
 			}
-			if j-i == 2 && (i == 0 || all[i-1] != '*') {
-				return "double-glob-substitution-with-vars"
-			}
+			stars := j - i
 			i = j
+			if stars < 2 || stars > 3 {
+				continue
+			}
+			// extent of the statement the glob belongs to: to the end of the line, or
+			// through the matching brace when a map opens on that line
+			depth, k := 0, j
+			for ; k < len(src); k++ {
+				c := src[k]
+				if c == '{' {
+					depth++
+				} else if c == '}' {
+					depth--
+					if depth < 0 {
+						break
+					}
+				} else if (c == '\n' || c == ';') && depth == 0 {
+					break
+				}
+			}
+			ext := src[j:k]
+			switch {
+			case strings.Contains(ext, "...${"):
+				return "multi-glob-with-spread-substitution"
+			case stars == 2 && hasVars && strings.Contains(ext, "${"):
+				return "double-glob-substitution-with-vars"
+			case strings.Contains(ext, "@"):
+				return "multi-glob-with-import-value"
+			}
 		}
 	}
 	return ""
+}
+
+func c07SortedValues(m map[string]string) []string {
+	var ks []string
+	for k := range m {
+		ks = append(ks, k)
+	}
+	sort.Strings(ks)
+	out := make([]string, 0, len(ks))
+	for _, k := range ks {
+		out = append(out, m[k])
+	}
+	return out
 }
 
 func execC07(c run.Case) (res run.Result) {
@@ -557,6 +657,10 @@ func c07CheckErr(res *run.Result, in c07In, err error) {
 			known = true
 			res.Inc("errors_in_imported_file")
 		}
+		if !known && e.Range == (d2ast.Range{}) {
+			res.Viol("C07.error-position", "C07.error-position:no-position:"+cls, fmt.Sprintf("error %q carries no source position at all (zero range)", e.Message))
+			continue
+		}
 		if !known {
 			res.Viol("C07.error-position", "C07.error-position:path-not-an-input-file:"+cls, fmt.Sprintf("error %q carries range %q whose path %q is none of the input files %v", e.Message, c07Range(e.Range), p, c07FileNames(in)))
 			continue
@@ -606,7 +710,11 @@ func c07MsgClass(e d2ast.Error) string {
 			}
 			break
 		}
-		words = append(words, strings.Trim(w, ":,"))
+		w = strings.Trim(w, ":,")
+		if len(words) == 0 && (w == "layers" || w == "scenarios" || w == "steps" || w == "classes") {
+			w = "board-keyword"
+		}
+		words = append(words, w)
 		if len(words) == 6 {
 			break
 		}
